@@ -182,7 +182,9 @@ def h_selection(ctx):
     sub = [0, 1][ctx.choice('sub', 2)]
     ltv = [0, 1, 101, 9][ctx.choice('ltv', 4)]
     normalize = bool(ctx.bool('normalize'))
-    args = (root, number, mtv, centre, sub, ltv, normalize)
+    # what was selected before must not matter: optionally a group WITH local tables for the same master version first
+    prior = ctx.choice('prior', 3)
+    args = (root, number, mtv, centre, sub, ltv, normalize, prior)
     if ctx.mode == 'explore':
         from crosshair.tracers import NoTracing
         with NoTracing():      # everything is concrete from here on; table files are loaded natively
@@ -190,8 +192,12 @@ def h_selection(ctx):
     return _selection_body(ctx, *args)
 
 
-def _selection_body(ctx, root, number, mtv, centre, sub, ltv, normalize):
+def _selection_body(ctx, root, number, mtv, centre, sub, ltv, normalize, prior=0):
     from pybufrkit.tables import TableGroupCacheManager
+    TableGroupCacheManager.invalidate()
+    if prior:
+        TableGroupCacheManager.get_table_group(tables_root_dir=root, master_table_number=0, originating_centre=98, originating_subcentre=0,
+                                               master_table_version=mtv or 33, local_table_version=[0, 1, 101][prior], normalize=1)
 
     def isdir(*parts):
         return os.path.isdir(os.path.join(root, *[str(x) for x in parts]))
@@ -237,6 +243,18 @@ def _selection_body(ctx, root, number, mtv, centre, sub, ltv, normalize):
         g2 = tg.B.lookup(int(lid))
         if type(g2).__name__ != 'ElementDescriptor' or g2.nbits != LB[lid][4]:
             return {'what': 'local table entry missing from the selected group', 'id': lid}
+    # ... and nothing else: exactly the entries of the selected files (an id from another table must stay undefined)
+    D = json.load(open(os.path.join(root, *wmo, 'TableD.json')))
+    if local:
+        D.update(json.load(open(os.path.join(root, *local, 'TableD.json'))))
+    for name, table, want in (('B', tg.B, B), ('D', tg.D, D)):
+        got_ids = set(int(k) for k in table.descriptors)
+        want_ids = set(int(k) for k in want)
+        if got_ids != want_ids:
+            extra = sorted(got_ids - want_ids)[:5]
+            missing = sorted(want_ids - got_ids)[:5]
+            return {'what': 'the selected table group does not hold exactly the entries of its table files', 'table': name,
+                    'extra': extra, 'missing': missing, 'args': [number, centre, sub, mtv, ltv, normalize], 'prior': prior}
     ctx.witness('selected-local' if local else 'selected')
     return None
 
